@@ -32,8 +32,9 @@ CHECKS = {
 
 CHECKS.update({
     "C08": dict(
-        technique="TLA+ refinement EvalCache => PygomModel checked by TLC (with negative control); TLC-generated "
-                  "behaviours (exhaustive directed family + simulation) replayed into a live SimulateOde",
+        technique="TLA+ refinement EvalCache => PygomModel checked by TLC (with negative control) and, for unbounded "
+                  "histories, by an Apalache inductive invariant; TLC-generated behaviours (exhaustive directed family + "
+                  "simulation) replayed into a live SimulateOde",
         level="model_checking",
         text="TLC checks for every interleaving of 6 mutator kinds and 4 evaluators that the canary design returns the "
              "current definition version (and finds the stale read when add_ode does not trip).  The code is bound at "
@@ -309,8 +310,12 @@ def main():
         },
         "engines": [
             {"name": "tlc", "path": "spec/", "serves_properties": [p for p in ALL if p in CHECKS],
-             "kind_free_text": "TLA+ specification (Poly, ModelSem, ModelDef, ...) checked with TLC 1.8; "
+             "kind_free_text": "TLA+ specification (Poly, ModelSem, ModelDef, ParamBind, PygomModel, EvalCache, SensLayout, "
+                               "Integrator, Jump, LossWiring, LossKernel, Rng, Abc, Fit; MC_*, OR_*, TR_*) checked with TLC 1.8; "
                                "conformance harness in harness/ and checks/"},
+            {"name": "apalache", "path": "spec/APA_EvalCache.tla", "serves_properties": ["C08"],
+             "kind_free_text": "Apalache 0.58 discharges the inductive invariant of the canary design for unbounded histories "
+                               "(supporting the TLC refinement check of C08)"},
         ],
         "checks": checks,
         "not_applicable": na,
